@@ -875,6 +875,9 @@ func TypeConforms(ctx map[ast.Variable]ast.BaseTerm, left ast.BaseTerm, right as
 			return false
 		}
 		leftDomain, rightDomain := leftApply.Args[1:], rightApply.Args[1:]
+		if len(leftDomain) != len(rightDomain) {
+			return false
+		}
 
 		for i, leftArg := range leftDomain {
 			if !TypeConforms(ctx, rightDomain[i], leftArg) {
